@@ -79,7 +79,7 @@ func (g *hasGen) genNullable(field *protogen.Field) {
 		g.P("return false")
 		// if oneof is not nil we need to try cast it to the concrete type
 		// and if it succeeds then it means the message has the field
-		g.P("} else if _, ok := x.", field.Oneof.GoName, ".(*", field.GoIdent, "); ok {")
+		g.P("} else if v, ok := x.", field.Oneof.GoName, ".(*", field.GoIdent, "); ok && v != nil {")
 		g.P("return true")
 		g.P("} else { ")
 		g.P("return false")
